@@ -19,7 +19,9 @@
 (***************************************************************************)
 EXTENDS Integers, Sequences, FiniteSets
 
-CONSTANTS Modified,     \* pages the transaction changes
+CONSTANTS Modified,     \* existing pages the transaction changes (they are journaled first)
+          Appended,     \* pages the transaction adds beyond the original end of the file (never journaled: recovery
+                        \* truncates the file back to the size recorded in the journal header)
           Mode,         \* "DELETE" | "TRUNCATE" | "PERSIST"
           NoSync        \* synchronous=OFF: headers carry magic and nRec = -1 (unknown) from the start
 
@@ -30,13 +32,14 @@ VARIABLES ph,          \* "active" | "committing" | "finalized"
           partial,     \* the last record is only partly on disk
           dbnew,       \* database pages carrying the new content
           dbtorn,      \* database pages half overwritten
+          dbapp,       \* appended pages present in the file (wholly or partly)
           dead         \* the writer process died (its locks are gone)
 
-jvars == <<ph, jexists, jfirstfull, segs, partial, dbnew, dbtorn, dead>>
+jvars == <<ph, jexists, jfirstfull, segs, partial, dbnew, dbtorn, dbapp, dead>>
 
 JInit ==
     /\ ph = "active" /\ jexists = FALSE /\ jfirstfull = FALSE /\ segs = <<>> /\ partial = FALSE
-    /\ dbnew = {} /\ dbtorn = {} /\ dead = FALSE
+    /\ dbnew = {} /\ dbtorn = {} /\ dbapp = {} /\ dead = FALSE
 
 Last == segs[Len(segs)]
 SeqSet(s) == {s[i] : i \in 1..Len(s)}
@@ -57,14 +60,14 @@ Covered == CoveredFrom(1)
 \* pwrite of a new header sector (journal creation, or after a spill); torn: only half of it
 JHdrWrite(torn) ==
     /\ ~dead /\ ph = "active" /\ ~partial
-    \* a further header only after a spill: the previous segment has records and was closed (synced)
-    /\ (IF segs = <<>> THEN TRUE ELSE Last.magic /\ Len(Last.recs) > 0)
+    \* a further header only after a spill: the previous segment was closed (synced); bounded number of segments
+    /\ (IF segs = <<>> THEN TRUE ELSE Last.magic /\ Len(segs) <= Cardinality(Modified) + 1)
     /\ jexists' = TRUE
     /\ jfirstfull' = IF segs = <<>> THEN ~torn ELSE jfirstfull
     \* the magic is in the first 8 bytes: a torn header write still carries it
     /\ segs' = Append(segs, [magic |-> NoSync, nrec |-> IF NoSync THEN -1 ELSE 0, recs |-> <<>>])
     /\ dead' = torn                                     \* a torn write is the process dying in the middle of it
-    /\ UNCHANGED <<ph, partial, dbnew, dbtorn>>
+    /\ UNCHANGED <<ph, partial, dbnew, dbtorn, dbapp>>
 
 \* the three pwrites of one page record (page number, content, checksum); torn: stops in between
 JRec(p, torn) ==
@@ -73,7 +76,7 @@ JRec(p, torn) ==
     /\ IF torn THEN partial' = TRUE /\ UNCHANGED segs
        ELSE segs' = [segs EXCEPT ![Len(segs)].recs = Append(@, p)] /\ UNCHANGED partial
     /\ dead' = torn
-    /\ UNCHANGED <<ph, jexists, jfirstfull, dbnew, dbtorn>>
+    /\ UNCHANGED <<ph, jexists, jfirstfull, dbnew, dbtorn, dbapp>>
 
 \* pwrite of magic + record count into the header of the last segment (after fsync); torn: the magic is incomplete
 JHdrCount(torn) ==
@@ -82,7 +85,7 @@ JHdrCount(torn) ==
     /\ IF torn THEN UNCHANGED segs
        ELSE segs' = [segs EXCEPT ![Len(segs)].magic = TRUE, ![Len(segs)].nrec = Len(Last.recs)]
     /\ dead' = torn
-    /\ UNCHANGED <<ph, jexists, jfirstfull, partial, dbnew, dbtorn>>
+    /\ UNCHANGED <<ph, jexists, jfirstfull, partial, dbnew, dbtorn, dbapp>>
 
 \* pwrite of a database page: write-ahead rule
 DbWrite(p, torn) ==
@@ -91,29 +94,40 @@ DbWrite(p, torn) ==
     /\ IF torn THEN dbtorn' = dbtorn \cup {p} /\ dbnew' = dbnew \ {p}
        ELSE dbnew' = dbnew \cup {p} /\ dbtorn' = dbtorn \ {p}
     /\ dead' = torn
-    /\ UNCHANGED <<ph, jexists, jfirstfull, segs, partial>>
+    /\ UNCHANGED <<ph, jexists, jfirstfull, segs, partial, dbapp>>
+
+\* pwrite of a page beyond the original end of the file: allowed once the first journal header (which records the
+\* original size) is on disk with its magic
+DbAppend(p, torn) ==
+    /\ ~dead /\ ph \in {"active", "committing"}
+    /\ p \in Appended
+    /\ segs # <<>> /\ segs[1].magic
+    /\ dbapp' = dbapp \cup {p}
+    /\ dead' = torn
+    /\ UNCHANGED <<ph, jexists, jfirstfull, segs, partial, dbnew, dbtorn>>
 
 \* commit phase 1: everything journaled and synced, the remaining pages go to the database file
 StartCommit ==
     /\ ~dead /\ ph = "active" /\ segs # <<>> /\ Last.magic /\ ~partial
     /\ Journaled = Modified
     /\ ph' = "committing"
-    /\ UNCHANGED <<jexists, jfirstfull, segs, partial, dbnew, dbtorn, dead>>
+    /\ UNCHANGED <<jexists, jfirstfull, segs, partial, dbnew, dbtorn, dbapp, dead>>
 
 \* commit point: the journal is deleted / truncated / its header zeroed (torn: half of the zeros: the magic is gone)
 Finalize ==
-    /\ ~dead /\ ph = "committing" /\ dbnew = Modified /\ dbtorn = {}
+    /\ ~dead /\ ph = "committing" /\ dbnew = Modified /\ dbtorn = {} /\ dbapp = Appended
     /\ CASE Mode = "DELETE"   -> jexists' = FALSE /\ UNCHANGED <<segs, jfirstfull>>
          [] Mode = "TRUNCATE" -> segs' = <<>> /\ jfirstfull' = FALSE /\ UNCHANGED jexists
          [] Mode = "PERSIST"  -> segs' = [segs EXCEPT ![1].magic = FALSE] /\ UNCHANGED <<jexists, jfirstfull>>
     /\ ph' = "finalized"
-    /\ UNCHANGED <<partial, dbnew, dbtorn, dead>>
+    /\ UNCHANGED <<partial, dbnew, dbtorn, dbapp, dead>>
 
-Crash == ~dead /\ dead' = TRUE /\ UNCHANGED <<ph, jexists, jfirstfull, segs, partial, dbnew, dbtorn>>
+Crash == ~dead /\ dead' = TRUE /\ UNCHANGED <<ph, jexists, jfirstfull, segs, partial, dbnew, dbtorn, dbapp>>
 
 JNext ==
     \/ \E t \in BOOLEAN : JHdrWrite(t) \/ JHdrCount(t)
     \/ \E p \in Modified, t \in BOOLEAN : JRec(p, t) \/ DbWrite(p, t)
+    \/ \E p \in Appended, t \in BOOLEAN : DbAppend(p, t)
     \/ StartCommit \/ Finalize \/ Crash
 
 JSpec == JInit /\ [][JNext]_jvars
@@ -121,17 +135,22 @@ JSpec == JInit /\ [][JNext]_jvars
 -----------------------------------------------------------------------------
 (* the readers                                                              *)
 
-Class(new, torn) == IF new = {} /\ torn = {} THEN "old" ELSE IF new = Modified /\ torn = {} THEN "new" ELSE "mixed"
+\* what the database file holds: the old state, the new state, or neither.  A torn append is invisible in the
+\* abstraction (dbapp only says the page is there): a dying writer is never in "finalized", so it does not matter.
+Class(new, torn, app) ==
+    IF new = {} /\ torn = {} /\ app = {} THEN "old"
+    ELSE IF new = Modified /\ torn = {} /\ app = Appended THEN "new" ELSE "mixed"
 
 \* SQLite: the journal is hot iff it exists, nobody holds RESERVED (the writer is dead), and its first byte is
 \* not zero; playback restores every covered record.
 SqliteHot == jexists /\ segs # <<>> /\ segs[1].magic
-SqliteRecovered == IF SqliteHot THEN Class(dbnew \ Covered, dbtorn \ Covered) ELSE Class(dbnew, dbtorn)
+\* playback restores every covered record and truncates the file to its original size
+SqliteRecovered == IF SqliteHot THEN Class(dbnew \ Covered, dbtorn \ Covered, {}) ELSE Class(dbnew, dbtorn, dbapp)
 
 \* sqlittle: validJournal (>= 28 bytes, magic, sane sector size, at least one full sector) and no live RESERVED lock
 \* => ErrHotJournal; otherwise the database file is read as it is
 SqlittleHot == jexists /\ segs # <<>> /\ segs[1].magic /\ jfirstfull
-SqlittleOutcome == IF SqlittleHot THEN "error" ELSE Class(dbnew, dbtorn)
+SqlittleOutcome == IF SqlittleHot THEN "error" ELSE Class(dbnew, dbtorn, dbapp)
 
 \* C09
 NeverReadsUnfinished == dead => (SqlittleOutcome = "error" \/ SqlittleOutcome = SqliteRecovered)
